@@ -156,6 +156,11 @@ static void install_guard(void) {
 /* ------------------------------------------------------------------ executing one case on the library */
 #define CALL(field, name, expr) do { O.stage = name; O.impl_calls++; O.field##_res = (expr); O.field##_done = 1; if (O.field##_res != KSI_OK && !O.fail_stage) O.fail_stage = name; } while (0)
 
+/* re-pointing: a service that was configured with another URI before; the final configuration must decide alone */
+static int g_prior;
+static const char *PRIOR_URI[] = {NULL, "ksi+tcp://prior.example.test:3333", "file:///verif-nonexistent/prior.bin", "http://prior.example.test/p", "ksi://pu:pk@prior.example.test:81/q"};
+#define NPRIOR 5
+
 static void exec_service(const ccase *c) {
 	KSI_CTX *ctx = NULL;
 	KSI_DataHash *hsh = NULL;
@@ -177,6 +182,7 @@ static void exec_service(const ccase *c) {
 	g_armed = 1;
 	switch (c->v) {
 		case SV_BLOCK_AGGR:
+			if (g_prior) KSI_CTX_setAggregator(ctx, PRIOR_URI[g_prior], "prior-user", "prior-key");
 			CALL(set, "KSI_CTX_setAggregator", KSI_CTX_setAggregator(ctx, c->uri, xid, xkey));
 			if (O.set_res != KSI_OK) break;
 			if (KSI_createSignRequest(ctx, hsh, 0, &areq) != KSI_OK) vf_harness_error("createSignRequest");
@@ -185,6 +191,7 @@ static void exec_service(const ccase *c) {
 			CALL(perf, "KSI_RequestHandle_perform", KSI_RequestHandle_perform(rh));
 			break;
 		case SV_BLOCK_EXT:
+			if (g_prior) KSI_CTX_setExtender(ctx, PRIOR_URI[g_prior], "prior-user", "prior-key");
 			CALL(set, "KSI_CTX_setExtender", KSI_CTX_setExtender(ctx, c->uri, xid, xkey));
 			if (O.set_res != KSI_OK) break;
 			if (KSI_createExtendRequest(ctx, t0, NULL, &ereq) != KSI_OK) vf_harness_error("createExtendRequest");
@@ -197,6 +204,7 @@ static void exec_service(const ccase *c) {
 			O.stage = c->v == SV_ASYNC_SIGN ? "KSI_SigningAsyncService_new" : "KSI_ExtendingAsyncService_new";
 			res = c->v == SV_ASYNC_SIGN ? KSI_SigningAsyncService_new(ctx, &as) : KSI_ExtendingAsyncService_new(ctx, &as);
 			if (res != KSI_OK) vf_harness_error("async service constructor failed 0x%x", res);
+			if (g_prior) KSI_AsyncService_setEndpoint(as, PRIOR_URI[g_prior], "prior-user", "prior-key");
 			CALL(set, "KSI_AsyncService_setEndpoint", KSI_AsyncService_setEndpoint(as, c->uri, xid, xkey));
 			if (O.set_res != KSI_OK) break;
 			if (c->v == SV_ASYNC_SIGN) {
@@ -607,6 +615,29 @@ static void run(void) {
 			}
 		}
 	}
+	/* (3) re-pointing: every service first configured with a URI of each transport kind, then with the URI under test
+	 * (one spelling per scheme, with and without embedded / explicit credentials): same expectations as a first configuration */
+	memset(&c, 0, sizeof c);
+	for (g_prior = 1; g_prior < NPRIOR; g_prior++)
+	for (c.b = 0; c.b < NSCH; c.b++)
+	for (c.u = 0; c.u < 2; c.u++)
+	for (c.p = 0; c.p < 4; c.p += 2)
+	for (c.x = 0; c.x < 2; c.x++)
+	for (c.v = 0; c.v < NSV; c.v++) {
+		int crashed;
+		c.mask = 0; c.h = 0; c.a = 2; c.q = 0; c.f = 0;
+		/* the asynchronous service accepts an endpoint only once (a second call is refused by design), so re-pointing
+		 * exists for the blocking services only */
+		if (c.v == SV_ASYNC_SIGN || c.v == SV_ASYNC_EXT) continue;
+		if (!vf_case_begin("repoint:pr%d:s%d:u%d:p%d:x%d:v%d", g_prior, c.b, c.u, c.p, c.x, c.v)) continue;
+		compose(&c);
+		reset_seam();
+		run_guarded(exec_service, &c, &crashed);
+		evaluate(&c, crashed);
+		vf_outcome("repoint:done");
+		vf_case_end(1);
+	}
+	g_prior = 0;
 	reset_seam();
 	vb_free(&O.body);
 }
